@@ -1034,13 +1034,12 @@ Proof. intros H. unfold lookup. cbn [assoc_N]. apply N.eqb_neq in H. now rewrite
 Lemma entry_stable i c : forall mid s a,
   lookup i (pending s) = Some c -> i < idmod ->
   next_id s = (i + 1 + a) mod idmod ->
-  a + count_calls mid < idmod - 1 + 1 ->
   a + count_calls mid + 1 <= idmod ->
   Forall (fun e => targets i e = false) mid ->
   running (run_from s mid) = true ->
   lookup i (pending (run_from s mid)) = Some c.
 Proof.
-  induction mid as [|e mid IH]; intros s a Hl Hi Hn Hc Hc' Hf Hr; [exact Hl|].
+  induction mid as [|e mid IH]; intros s a Hl Hi Hn Hc' Hf Hr; [exact Hl|].
   cbn [Rpc.run_from fold_left] in *. fold (run_from (step s e) mid) in *.
   inversion Hf as [|? ? Hte Hf']; subst.
   assert (Hrs : running (step s e) = true).
@@ -1050,7 +1049,7 @@ Proof.
   { destruct (running s) eqn:E; [reflexivity|]. now rewrite step_stopped in Hrs. }
   assert (Hcnt : count_calls (e :: mid) = (if is_call e then 1 else 0) + count_calls mid).
   { unfold count_calls. cbn [filter]. destruct (is_call e); cbn [List.length]; lia. }
-  rewrite Hcnt in Hc, Hc'.
+  rewrite Hcnt in Hc'.
   apply (IH (step s e) (a + if is_call e then 1 else 0)); try assumption; try lia.
   - (* the entry survives this step *)
     destruct e as [|k|c' ok|f| |]; cbn [Rpc.step] in *.
@@ -1221,3 +1220,287 @@ Qed.
 
 Lemma wf_traceb_spec tr : wf_traceb tr = true -> wf_trace tr.
 Proof. apply nodupb_spec. Qed.
+
+(** * Whatever order the replies arrive in *)
+
+Lemma Forall2_nth_error_wf {A B} (R : A -> B -> Prop) (l : list A) (l' : list B) j a b :
+  Forall2 R l l' -> nth_error l j = Some a -> nth_error l' j = Some b -> R a b.
+Proof.
+  intros H. revert j. induction H as [|x y l l' Hxy H IH]; intros j Ha Hb; [destruct j; discriminate|].
+  destruct j as [|j]; cbn [nth_error] in *.
+  - injection Ha as <-. injection Hb as <-. exact Hxy.
+  - eapply IH; eassumption.
+Qed.
+
+Section ReplyOrder.
+Variable alloc_max : N.
+Hypothesis alloc_max_ok : alloc_max <= go_max_alloc.
+Variable idmod : N.
+Hypothesis idmod_pos : 0 < idmod.
+Hypothesis idmod_le : idmod <= two64.
+
+Notation step := (Rpc.step alloc_max idmod).
+Notation run_from := (Rpc.run_from alloc_max idmod).
+Notation run := (Rpc.run alloc_max idmod).
+
+(** Serve is running, no shutdown has been requested and no shutdown call is
+    pending: then neither a successfully sent ordinary call nor a frame with
+    a zero error byte can end the transport. *)
+Definition calm (s : st) : Prop :=
+  running s = true /\ shut s = false /\
+  forall i c, In (i, c) (pending s) -> pc_typ c <> msg_shutdown.
+
+Lemma calm_call s c :
+  calm s -> pc_typ c <> msg_shutdown -> calm (step s (ECall c true)).
+Proof.
+  intros (Hr & Hs & Hp) Ht. cbn [Rpc.step]. rewrite Hr. unfold Rpc.on_call. rewrite Hs. cbn [negb].
+  apply N.eqb_neq in Ht.
+  repeat split.
+  - cbn [set_pending running]. destruct (lookup _ _); [rewrite complete_running|];
+      cbn [running set_pending]; exact Hr.
+  - cbn [set_pending shut]. destruct (lookup _ _); [rewrite complete_shut|]; cbn [shut set_pending]; exact Ht.
+  - cbn [set_pending pending]. intros i c0 [H|H].
+    + injection H as _ <-. now apply N.eqb_neq.
+    + destruct (lookup _ _); cbn [pending set_pending] in H.
+      * rewrite complete_pending in H. cbn [set_pending pending] in H.
+        apply remove_in in H. now apply (Hp i c0).
+      * now apply (Hp i c0).
+Qed.
+
+Definition error_byte_zero (f : bytes) : Prop :=
+  match fst (parse_reply_header f) with HRemoteError _ => False | _ => True end.
+
+Lemma calm_reply s f : calm s -> error_byte_zero f -> calm (step s (EReply f)).
+Proof.
+  intros (Hr & Hs & Hp) He. cbn [Rpc.step]. rewrite Hr. unfold Rpc.on_reply, error_byte_zero in *.
+  destruct (parse_reply_header f) as [h d]. cbn [fst] in He.
+  destruct h as [n|ec|id typ]; [repeat split; assumption|destruct He|].
+  destruct (typ =? msg_shutdown_hint); [repeat split; assumption|].
+  destruct (lookup id (pending s)) as [c|] eqn:El; [|repeat split; assumption].
+  assert (Hsub : forall i c0, In (i, c0) (remove id (pending s)) -> pc_typ c0 <> msg_shutdown).
+  { intros i c0 H. apply remove_in in H. now apply (Hp i c0). }
+  destruct (typ =? pc_typ c) eqn:Et; cbn [negb].
+  - apply N.eqb_eq in Et. subst typ.
+    assert (Hne : (pc_typ c =? msg_shutdown) = false).
+    { apply N.eqb_neq. apply (Hp id c). now apply lookup_in. }
+    rewrite Hne, andb_false_r.
+    repeat split.
+    + now rewrite complete_running.
+    + now rewrite complete_shut.
+    + rewrite complete_pending. exact Hsub.
+  - repeat split; assumption.
+Qed.
+
+Lemma calm_calls cs : forall s,
+  calm s -> Forall (fun c => pc_typ c <> msg_shutdown) cs ->
+  calm (run_from s (map (fun c => ECall c true) cs)).
+Proof.
+  induction cs as [|c r IH]; intros s Hc Hf; cbn [map Rpc.run_from fold_left]; [exact Hc|].
+  inversion Hf; subst. apply IH; [|assumption]. now apply calm_call.
+Qed.
+
+Lemma calm_replies fs : forall s,
+  calm s -> Forall error_byte_zero fs -> calm (run_from s (map EReply fs)).
+Proof.
+  induction fs as [|f r IH]; intros s Hc Hf; cbn [map Rpc.run_from fold_left]; [exact Hc|].
+  inversion Hf; subst. apply IH; [|assumption]. now apply calm_reply.
+Qed.
+
+Lemma calm_init : calm init_st.
+Proof. repeat split. intros i c []. Qed.
+
+(** The well-formed reply of the peer to the [i]-th call. *)
+Definition good_reply (i : N) (c : pcall) (vs : list value) : bytes :=
+  reply_frame i (pc_typ c) 0 (reply_body c vs).
+
+Lemma good_reply_header i c vs :
+  i < two64 -> pc_typ c < 256 -> reply_wf c vs ->
+  exists d, parse_reply_header (good_reply i c vs) = (HReply i (pc_typ c), d).
+Proof.
+  intros Hi Ht Hwf. unfold good_reply, reply_body, reply_wf in *.
+  destruct (pc_sch c) as [sch|].
+  - destruct (client_roundtrip alloc_max alloc_max_ok 0 i (pc_typ c) sch vs []) as [d' [R _]];
+      try assumption.
+    rewrite app_nil_r in R. rewrite client_decode_split in R.
+    destruct (parse_reply_header _) as [h d0]. destruct h as [?|?|id0 typ0]; try discriminate.
+    injection R as E1 E2 _. exists d0. now rewrite E1, E2.
+  - destruct (client_roundtrip alloc_max alloc_max_ok 0 i (pc_typ c) [] [] []) as [d' [R _]];
+      try assumption; [constructor|].
+    rewrite app_nil_r in R. rewrite client_decode_split in R. cbn [enc_schema] in R.
+    destruct (parse_reply_header _) as [h d0]. destruct h as [?|?|id0 typ0]; try discriminate.
+    injection R as E1 E2 _. exists d0. now rewrite E1, E2.
+Qed.
+
+(** The replies to calls number [i], [i+1], ... *)
+Fixpoint good_replies (i : N) (cs : list pcall) (vss : list (list value)) : list bytes :=
+  match cs, vss with
+  | c :: cs', vs :: vss' => good_reply i c vs :: good_replies (i + 1) cs' vss'
+  | _, _ => []
+  end.
+
+Definition ordinary (c : pcall) : Prop :=
+  pc_typ c < 256 /\ pc_typ c <> msg_shutdown /\ pc_typ c <> msg_shutdown_hint.
+
+Lemma good_replies_ids cs : forall i vss f,
+  i + N.of_nat (List.length cs) <= two64 ->
+  Forall ordinary cs -> Forall2 reply_wf cs vss ->
+  In f (good_replies i cs vss) ->
+  error_byte_zero f /\ exists j, frame_id f = Some j /\ i <= j < i + N.of_nat (List.length cs).
+Proof.
+  induction cs as [|c r IH]; intros i vss f Hb Ho Hw Hin.
+  - destruct vss; destruct Hin.
+  - inversion Hw as [|? vs ? vss' Hv Hvs]; subst. inversion Ho as [|? ? (Ht & _) Hor]; subst.
+    cbn [good_replies List.length] in *. destruct Hin as [<-|Hin].
+    + destruct (good_reply_header i c vs) as [d Hd]; try assumption; try lia.
+      unfold error_byte_zero, frame_id. rewrite Hd. cbn [fst]. split; [exact I|].
+      exists i. split; [reflexivity|lia].
+    + destruct (IH (i + 1) vss' f) as (G1 & j & G2 & G3); try assumption; try lia.
+      split; [assumption|]. exists j. split; [assumption|lia].
+Qed.
+
+Lemma good_replies_nth cs : forall i vss j c vs,
+  nth_error cs j = Some c -> nth_error vss j = Some vs ->
+  In (good_reply (i + N.of_nat j) c vs) (good_replies i cs vss).
+Proof.
+  induction cs as [|c0 r IH]; intros i vss j c vs Hc Hv; [destruct j; discriminate|].
+  destruct vss as [|vs0 vss']; [destruct j; discriminate|].
+  destruct j as [|j]; cbn [nth_error good_replies] in *.
+  - injection Hc as <-. injection Hv as <-. left. f_equal. lia.
+  - right. replace (i + N.of_nat (S j)) with (i + 1 + N.of_nat j) by lia. now apply IH.
+Qed.
+
+(** All other replies in the list are addressed to other ids. *)
+Lemma good_replies_other cs : forall i vss j c vs f,
+  i + N.of_nat (List.length cs) <= two64 ->
+  Forall ordinary cs -> Forall2 reply_wf cs vss ->
+  nth_error cs j = Some c -> nth_error vss j = Some vs ->
+  In f (good_replies i cs vss) -> frame_id f = Some (i + N.of_nat j) ->
+  f = good_reply (i + N.of_nat j) c vs.
+Proof.
+  induction cs as [|c0 r IH]; intros i vss j c vs f Hb Ho Hw Hc Hv Hin Hid; [destruct j; discriminate|].
+  inversion Hw as [|? vs0 ? vss' Hv0 Hvs]; subst. inversion Ho as [|? ? (Ht0 & _) Hor]; subst.
+  cbn [good_replies List.length] in *.
+  destruct j as [|j]; cbn [nth_error] in *.
+  - injection Hc as <-. injection Hv as <-. destruct Hin as [<-|Hin]; [f_equal; lia|].
+    destruct (good_replies_ids r (i + 1) vss' f) as (_ & k & G2 & G3); try assumption; try lia.
+    rewrite G2 in Hid. injection Hid as ->. lia.
+  - destruct Hin as [<-|Hin].
+    + destruct (good_reply_header i c0 vs0) as [d Hd]; try assumption; try lia.
+      unfold frame_id in Hid. rewrite Hd in Hid. cbn [fst] in Hid. injection Hid as E. lia.
+    + replace (i + N.of_nat (S j)) with (i + 1 + N.of_nat j) in * by lia.
+      eapply IH; try eassumption. lia.
+Qed.
+
+Lemma good_replies_nodup cs : forall i vss,
+  i + N.of_nat (List.length cs) <= two64 ->
+  Forall ordinary cs -> Forall2 reply_wf cs vss ->
+  NoDup (good_replies i cs vss).
+Proof.
+  induction cs as [|c r IH]; intros i vss Hb Ho Hw.
+  - destruct vss; constructor.
+  - inversion Hw as [|? vs ? vss' Hv Hvs]; subst. inversion Ho as [|? ? (Ht & _) Hor]; subst.
+    cbn [good_replies List.length] in *. constructor; [|apply IH; try assumption; lia].
+    intros Hin.
+    destruct (good_replies_ids r (i + 1) vss' _ ltac:(lia) Hor Hvs Hin) as (_ & k & G2 & G3).
+    destruct (good_reply_header i c vs) as [d Hd]; try assumption; try lia.
+    unfold frame_id in G2. rewrite Hd in G2. cbn [fst] in G2. injection G2 as E. lia.
+Qed.
+
+Lemma callers_of_calls cs : callers_of (map (fun c => ECall c true) cs) = map pc_caller cs.
+Proof. induction cs as [|c r IH]; cbn; [reflexivity|]. now rewrite <- IH. Qed.
+
+Lemma callers_of_replies fs : callers_of (map EReply fs) = [].
+Proof. induction fs as [|f r IH]; cbn; [reflexivity|exact IH]. Qed.
+
+Lemma count_calls_calls cs : count_calls (map (fun c => ECall c true) cs) = N.of_nat (List.length cs).
+Proof.
+  unfold count_calls. f_equal. induction cs as [|c r IH]; cbn; [reflexivity|]. now rewrite IH.
+Qed.
+
+Lemma count_calls_app a b : count_calls (a ++ b) = count_calls a + count_calls b.
+Proof. unfold count_calls. rewrite filter_app, app_length. lia. Qed.
+
+Lemma count_calls_replies fs : count_calls (map EReply fs) = 0.
+Proof. unfold count_calls. induction fs as [|f r IH]; cbn; [reflexivity|exact IH]. Qed.
+
+(** Any number of outstanding calls, replies in ANY order: every call gets
+    exactly the fields the peer encoded for it. *)
+Theorem any_reply_order cs vss frames :
+  NoDup (map pc_caller cs) ->
+  N.of_nat (List.length cs) <= idmod ->
+  Forall ordinary cs -> Forall2 reply_wf cs vss ->
+  Permutation frames (good_replies 0 cs vss) ->
+  forall j c vs, nth_error cs j = Some c -> nth_error vss j = Some vs ->
+  status (run (map (fun c => ECall c true) cs ++ map EReply frames)) (pc_caller c) = Some (ROk vs).
+Proof.
+  intros Hnd Hlen Ho Hw Hperm j c vs Hc Hv.
+  assert (Hb : 0 + N.of_nat (List.length cs) <= two64) by lia.
+  assert (Hns : Forall (fun c => pc_typ c <> msg_shutdown) cs).
+  { eapply Forall_impl; [|exact Ho]. intros a (_ & H & _). exact H. }
+  set (f := good_reply (N.of_nat j) c vs).
+  assert (Hf : In f frames).
+  { eapply Permutation_in; [apply Permutation_sym, Hperm|].
+    apply (good_replies_nth cs 0 vss j c vs Hc Hv). }
+  apply in_split in Hf. destruct Hf as (before & after & ->).
+  destruct (nth_error_split cs j Hc) as (l1 & l2 & Ecs & Hl1).
+  assert (Hjlt : N.of_nat j < N.of_nat (List.length cs)).
+  { rewrite Ecs, app_length. cbn [List.length]. lia. }
+  (* frames other than f are addressed to other ids *)
+  assert (Hnodup : NoDup (before ++ f :: after)).
+  { eapply Permutation_NoDup; [apply Permutation_sym, Hperm|].
+    now apply good_replies_nodup. }
+  assert (Hall : forall fb, In fb (before ++ f :: after) ->
+            error_byte_zero fb /\ (frame_id fb = Some (N.of_nat j) -> fb = f)).
+  { intros fb Hin. assert (Hg : In fb (good_replies 0 cs vss)) by (eapply Permutation_in; eassumption).
+    destruct (good_replies_ids cs 0 vss fb Hb Ho Hw Hg) as (G1 & _). split; [assumption|].
+    intros Hid. apply (good_replies_other cs 0 vss j c vs fb Hb Ho Hw Hc Hv Hg Hid). }
+  pose proof (proj1 (Forall_forall ordinary cs) Ho c (nth_error_In _ _ Hc)) as (Ht & _ & Hnh).
+  (* the shape answered_call_completes wants *)
+  set (pre := map (fun c => ECall c true) l1).
+  set (mid := map (fun c => ECall c true) l2 ++ map EReply before).
+  set (post := map EReply after).
+  assert (Etr : map (fun c => ECall c true) cs ++ map EReply (before ++ f :: after) =
+                pre ++ ECall c true :: mid ++ EReply (f ++ []) :: post).
+  { unfold pre, mid, post. rewrite Ecs, map_app, map_app. cbn [map].
+    rewrite app_nil_r. rewrite <- ?app_assoc. cbn [app]. rewrite <- ?app_assoc. reflexivity. }
+  assert (Hcalm_pre : calm (run pre)).
+  { unfold Rpc.run, pre. apply calm_calls; [apply calm_init|].
+    rewrite Ecs in Hns. now apply Forall_app in Hns. }
+  assert (Hid : next_id (run pre) = N.of_nat j).
+  { rewrite (next_id_counts alloc_max alloc_max_ok idmod idmod_pos) by apply Hcalm_pre.
+    unfold pre. rewrite count_calls_calls, Hl1. apply N.mod_small. lia. }
+  rewrite Etr. unfold f, good_reply. rewrite <- Hid.
+  apply (answered_call_completes alloc_max alloc_max_ok idmod idmod_pos).
+  - (* wf_trace *)
+    rewrite Hid. fold (good_reply (N.of_nat j) c vs). fold f. rewrite <- Etr.
+    unfold wf_trace. rewrite callers_of_app, callers_of_calls, callers_of_replies, app_nil_r.
+    exact Hnd.
+  - apply Hcalm_pre.
+  - (* still running when the reply arrives *)
+    replace (pre ++ ECall c true :: mid)
+      with (map (fun c => ECall c true) cs ++ map EReply before).
+    2:{ unfold pre, mid. rewrite Ecs, map_app. cbn [map]. rewrite <- ?app_assoc. cbn [app].
+        rewrite <- ?app_assoc. reflexivity. }
+    unfold Rpc.run. rewrite run_from_app.
+    apply calm_replies.
+    + apply calm_calls; [apply calm_init|exact Hns].
+    + apply Forall_forall. intros fb Hin. apply Hall. apply in_or_app. now left.
+  - (* nothing in between is addressed to this id *)
+    rewrite Hid. unfold mid. apply Forall_app. split.
+    + apply Forall_forall. intros e He. apply in_map_iff in He. destruct He as (c0 & <- & _).
+      reflexivity.
+    + apply Forall_forall. intros e He. apply in_map_iff in He. destruct He as (fb & <- & Hin).
+      unfold targets, event_frame_id.
+      destruct (frame_id fb) as [k|] eqn:Ek; [|reflexivity].
+      apply N.eqb_neq. intros E. subst k.
+      assert (fb = f) by (apply Hall; [apply in_or_app; now left|assumption]).
+      subst fb. apply NoDup_remove_2 in Hnodup. apply Hnodup. apply in_or_app. now left.
+  - unfold mid. rewrite count_calls_app, count_calls_calls, count_calls_replies.
+    rewrite Ecs, app_length in Hlen. cbn [List.length] in Hlen. lia.
+  - exact idmod_le.
+  - exact Ht.
+  - exact Hnh.
+  - apply (Forall2_nth_error_wf reply_wf cs vss j c vs Hw Hc Hv).
+Qed.
+
+End ReplyOrder.
